@@ -691,6 +691,7 @@ func cmdCheck(args []string) {
 			fmt.Printf("  %s: %s\n", v.Obligation, v.Reason)
 			fmt.Printf("VIOLATION property=%s replay=%s%s\n", prop, v.Replay, suffix)
 		}
+		os.RemoveAll(work) // deferred calls do not run on os.Exit
 		os.Exit(1)
 	}
 }
